@@ -26,14 +26,17 @@ class IrParseException(Exception):
 def tokenize(lines):
     # Create a regular expression for the lexing part:
     tok_spec = [
-        ("FLOAT", r"\-?\d+\.\d+"),
+        (
+            "FLOAT",
+            r"\-?\d+\.\d+(?:[eE][\-\+]?\d+)?|\-?\d+[eE][\-\+]?\d+|\-inf\b",
+        ),
         ("INT", r"\-?\d+"),
         ("STRING", r"'[^']*'"),
-        ("ID", r"[A-Za-z][A-Za-z\d_]*"),
+        ("ID", r"[A-Za-z_][A-Za-z\d_]*"),
         ("SKIP", r"\s+"),
         (
             "OTHER",
-            r"[,:;\-\?\+*%\[\]/\(\)]|<<|>>|!=|==|<=|>=|>|<|=|{|}|&|\^|\|",
+            r"[,:;\-\?\+*%\[\]/\(\)]|<<|>>|!=|==|<=|>=|>|<|=|{|}|&|\^|\||~",
         ),
     ]
     tok_re = "|".join(f"(?P<{name}>{pat})" for name, pat in tok_spec)
@@ -207,7 +210,22 @@ class Reader:
         self.consume_keyword("at")
         alignment = self.parse_integer()
         self.consume(")")
-        variable = ir.Variable(name, binding, amount, alignment)
+        value = None
+        if self.peek == "=":
+            # Initial value: hex encoded data and references to labels.
+            self.consume("=")
+            parts = []
+            while self.peek in ["STRING", "&"]:
+                if self.peek == "STRING":
+                    parts.append(unhexlify(self.consume("STRING")[1]))
+                else:
+                    self.consume("&")
+                    parts.append((ir.ptr, self.parse_id()))
+                if self.peek != ",":
+                    break
+                self.consume(",")
+            value = tuple(parts)
+        variable = ir.Variable(name, binding, amount, alignment, value=value)
         self.define_value(variable)
         return variable
 
@@ -333,22 +351,17 @@ class Reader:
             if self.peek in ir.Binop.ops:
                 # Go for binop
                 op = self.consume(self.peek)[1]
-                b = self.parse_id()
-                a = self.find_value(a)
-                b = self.find_value(b)
-                ins = ir.Binop(a, op, b, name, ty)
+                ins = self.parse_binop(a, op, name, ty)
+            elif self.token[0] == "ID" and self.token[1] in ir.Binop.ops:
+                # An operator spelled as a word, like 'rol'
+                op = self.parse_id()
+                if a == "phi" and self.peek == ":":
+                    # No operator after all, but a block with such a name
+                    ins = self.parse_phi(name, ty, self._get_block(op))
+                else:
+                    ins = self.parse_binop(a, op, name, ty)
             elif a == "phi":
-                ins = ir.Phi(name, ty)
-                b1 = self.parse_block_ref()
-                self.consume(":")
-                v1 = self.parse_value_ref(ty=ty)
-                ins.set_incoming(b1, v1)
-                while self.peek == ",":
-                    self.consume(",")
-                    b1 = self.parse_block_ref()
-                    self.consume(":")
-                    v1 = self.parse_value_ref(ty=ty)
-                    ins.set_incoming(b1, v1)
+                ins = self.parse_phi(name, ty, self.parse_block_ref())
             elif a == "alloc":
                 size = self.parse_integer()
                 self.consume_keyword("bytes")
@@ -359,6 +372,14 @@ class Reader:
             elif a == "load":
                 address = self.parse_value_ref()
                 ins = ir.Load(address, name, ty)
+            elif a == "volatile":
+                self.consume_keyword("load")
+                address = self.parse_value_ref()
+                ins = ir.Load(address, name, ty, volatile=True)
+            elif a == "undefined":
+                ins = ir.Undefined(name, ty)
+            elif a in ["inf", "nan"]:
+                ins = ir.Const(float(a), name, ty)
             elif a == "cast":
                 value = self.parse_value_ref()
                 ins = ir.Cast(value, name, ty)
@@ -380,13 +401,31 @@ class Reader:
             src = self.parse_value_ref(ty=ir.BlobDataTyp(1, 1))
             assert ty is ir.ptr
             ins = ir.AddressOf(src, name)
-        elif self.peek == "-":
-            self.consume("-")
-            operation = "-"
-            a = self.parse_value_ref()
+        elif self.peek in ir.Unop.ops:
+            operation = self.consume(self.peek)[1]
+            a = self.parse_value_ref(ty=ty)
             ins = ir.Unop(operation, a, name, ty)
         else:  # pragma: no cover
             raise NotImplementedError(self.peek)
+        return ins
+
+    def parse_binop(self, a, op, name, ty):
+        """Parse the right hand side of a binary operation"""
+        b = self.parse_id()
+        a = self.find_value(a, ty=ty)
+        b = self.find_value(b, ty=ty)
+        return ir.Binop(a, op, b, name, ty)
+
+    def parse_phi(self, name, ty, block):
+        """Parse the incoming values of a phi, given the first block"""
+        ins = ir.Phi(name, ty)
+        self.consume(":")
+        ins.set_incoming(block, self.parse_value_ref(ty=ty))
+        while self.peek == ",":
+            self.consume(",")
+            block = self.parse_block_ref()
+            self.consume(":")
+            ins.set_incoming(block, self.parse_value_ref(ty=ty))
         return ins
 
     def parse_integer(self):
@@ -418,12 +457,25 @@ class Reader:
             ins = self.parse_cjmp()
         elif self.at_keyword("return"):
             ins = self.parse_return()
-        elif self.at_keyword("store"):
+        elif self.at_keyword("store") or self.at_keyword("volatile"):
+            volatile = self.at_keyword("volatile")
+            if volatile:
+                self.consume_keyword("volatile")
             self.consume_keyword("store")
             value = self.parse_value_ref()
             self.consume(",")
             address = self.parse_value_ref()
-            ins = ir.Store(value, address)
+            ins = ir.Store(value, address, volatile=volatile)
+        elif self.at_keyword("memcpy"):
+            self.consume_keyword("memcpy")
+            self.consume("(")
+            dst = self.parse_value_ref()
+            self.consume(",")
+            src = self.parse_value_ref()
+            self.consume(",")
+            amount = self.parse_integer()
+            self.consume(")")
+            ins = ir.CopyBlob(dst, src, amount)
         elif self.at_keyword("exit"):
             self.consume_keyword("exit")
             ins = ir.Exit()
